@@ -145,6 +145,30 @@ def realize(mdg, res, J, c, x0, scale=0.05):
     return S
 
 
+def make_operator(S, Jrows, crows, name, scale=0.05):
+    """The operator of ``realize`` for one equation given its rows of J and c (used to
+    re-define an equation of an existing system)."""
+    import porepy as pp
+
+    bl = S.ref.blocks()
+    sin = pp.ad.Function(pp.ad.functions.sin, "sin")
+    lin = None
+    for vname, md in S.mdvars.items():
+        cols = np.concatenate([np.arange(*bl[id(en.var)]) for en in S.entries[vname]])
+        M = sps.csr_matrix(Jrows[:, cols])
+        if M.nnz == 0:
+            continue
+        term = pp.ad.SparseArray(M) @ md
+        lin = term if lin is None else lin + term
+    if lin is None:
+        vname, md = next(iter(S.mdvars.items()))
+        cols = np.concatenate([np.arange(*bl[id(en.var)]) for en in S.entries[vname]])
+        lin = pp.ad.SparseArray(sps.csr_matrix((Jrows.shape[0], cols.size))) @ md
+    op = lin + pp.ad.Scalar(scale) * sin(lin) - pp.ad.DenseArray(np.array(crows, dtype=float))
+    op.set_name(name)
+    return op
+
+
 def sizes(mdg, res):
     """(number of rows, number of dofs) of a resolved spec, from entity counts only."""
     n = sum(block_size(g, v["dof"], v["kind"] == "intf") for v in res["vars"] for g in v["grids"])
